@@ -104,6 +104,16 @@ if __name__ == "__main__":
     # (Turtle/TriG token producers proved, statement layer and whole-document formats by oracle)
     assemble("C16", [("C16NQ.part", None, None), ("C16X", None, None)],
       "proof",
-      "N-Triples/N-Quads: machine-checked in full, for all inputs (arbitrary rune/size lists incl. ill-formed bytes), both stream endings, both packages, every initial offset: (1) the run with offset bookkeeping yields exactly the statements and verdict of the base decoder model, capture on or off; (2) after any number of successful Next calls the runes committed to the text writer followed by the unread input are exactly the input (commit discipline), the rune buffer offset is the size of the consumed prefix; (3) with capture on every statement has subject/predicate/object ranges and a graph range iff it has a graph name, each range delimits a segment of the input with the delimiters of the term's token, from/until are initial+bytes, initial line+LFs (every grapheme counter) and the exact line/column under the Simple hypothesis, inside the document with from <= until; (4) reports with initial offset o are the zero-offset reports translated by o; (5) the base decoder re-reads every range segment to the same term; (6) offsets attached to errors lie inside the document (repaired code; the unrepaired code is refuted by a decide witness). Turtle/TriG: machine-checked for the seven token producers of encoding/turtle and encoding/trig (produceIRIREF, produceString, producePNAME_NS, producePrefixedName, produceBlankNode, produceLANGTAG, produceNumericLiteral), all inputs, both endings, both packages, any writer history: erasure (the producer with bookkeeping returns exactly the value, remaining input, error class and panic outcome of Model.TurtleTokens, so capture never changes a token), commit discipline per call (a successful call consumes exactly pre++body and commits exactly those runes, in order, each once), the range delimits exactly the token body with From/Until = initial+bytes / line+LFs / exact position on Simple text, label/tag/numeric lexical form = range text, producer error offsets inside the input (repaired code, patches c16x-1/c16x-2; the unrepaired produceString is refuted by a decide witness). NOT proved, decided by the property oracle of go/cmd/c16x on the implementation (search, labelled as such): the Turtle/TriG STATEMENT layer (white space, punctuation and keyword commits between tokens, attachment of ranges to statements, capture on == off and the initial-offset shift at document level, re-decoding of every subject/predicate/object/graph slice in the prefix/base context in force: Model.TurtleDoc is not instrumented), and EVERYTHING about RDF/JSON, RDF/XML, JSON-LD, RDFa, Microdata, HTML-embedded JSON-LD and the combined HTML decoder, whose positions come from third-party tokenizer wrappers (inspectjson, inspectxml, inspecthtml): oracle only, over the W3C corpora shipped in the repository, grammar-directed documents and (except the HTML family) their byte-level mutations and truncations.",
+      "N-Triples/N-Quads: machine-checked in full, for all inputs (arbitrary rune/size lists incl. ill-formed bytes), both stream endings, both packages, every initial offset: (1) the run with offset bookkeeping yields exactly the statements and verdict of the base decoder model, capture on or off; (2) after any number of successful Next calls the runes committed to the text writer followed by the unread input are exactly the input (commit discipline), the rune buffer offset is the size of the consumed prefix; (3) with capture on every statement has subject/predicate/object ranges and a graph range iff it has a graph name, each range delimits a segment of the input with the delimiters of the term's token, from/until are initial+bytes, initial line+LFs (every grapheme counter) and the exact line/column under the Simple hypothesis, inside the document with from <= until; (4) reports with initial offset o are the zero-offset reports translated by o; (5) the base decoder re-reads every range segment to the same term; (6) offsets attached to errors lie inside the document (repaired code; the unrepaired code is refuted by a decide witness). Turtle/TriG: machine-checked for the seven token producers of encoding/turtle and encoding/trig (produceIRIREF, produceString, producePNAME_NS, producePrefixedName, produceBlankNode, produceLANGTAG, produceNumericLiteral), all inputs, both endings, both packages, any writer history: erasure (the producer with bookkeeping returns exactly the value, remaining input, error class and panic outcome of Model.TurtleTokens, so capture never changes a token), commit discipline per call (a successful call consumes exactly pre++body and commits exactly those runes, in order, each once), the range delimits exactly the token body with From/Until = initial+bytes / line+LFs / exact position on Simple text, label/tag/numeric lexical form = range text, producer error offsets inside the input (repaired code, patches c16x-1/c16x-2; the unrepaired produceString is refuted by a decide witness); at document level only the PARTIAL corollary doc_capture_irrelevant_producers_partial (the statement machine Model.TurtleDoc over the instrumented producers, any bookkeeping state per call, capture on or off, decodes the same statements and verdict as over the base producers: no token producer's bookkeeping can change what a document decodes to) and the T2 fact writer_is_write_only_T2 (go/ast: the statement layer references its text writer only through the write-only helpers of decoder_offsets_util.go and nil-tests a recorded range only to assign …Location fields). NOT proved, decided by the property oracle of go/cmd/c16x on the implementation (search, labelled as such): the Turtle/TriG STATEMENT layer's own bookkeeping (white space, punctuation and keyword commits between tokens, attachment of ranges to statements, capture on == off for those commits and the initial-offset shift at document level, re-decoding of every subject/predicate/object/graph slice in the prefix/base context in force: Model.TurtleDoc is not instrumented), and EVERYTHING about RDF/JSON, RDF/XML, JSON-LD, RDFa, Microdata, HTML-embedded JSON-LD and the combined HTML decoder, whose positions come from third-party tokenizer wrappers (inspectjson, inspectxml, inspecthtml): oracle only, over the W3C corpora shipped in the repository, grammar-directed documents and (except the HTML family) their byte-level mutations and truncations.",
       "Trusted: Lean kernel; axioms propext/Classical.choice/Quot.sound at most; T1 extractors for the rune tables of the four packages; the T3 harnesses c16 (op nqo.dec: whole N-Triples/N-Quads documents, statements + four ranges + verdict + error offset, capture on/off, initial offsets, both endings) and c16x (op offx.tok: single Turtle/TriG tokens through the add-only hook VerifProduceOffsets) for the hand-written instrumented models, cursorio.TextWriter and RuneBuffer; textseg as a parameter (columns exact only on Simple text); bufio rune decoding; net/url as parameter; the oracle of c16x and its generators for the Turtle/TriG statement layer and for all whole-document formats (the oracle's XML scanner is itself compared with encoding/xml on every RDF/XML document). Whole-document formats: no theorem; RDF/XML and the HTML family carry trait- or class-keyed known findings (third-party attribute location), so for the HTML family C16 is decided only on trait-free documents and byte-level mutations of HTML are not part of the registered tiers.",
       "Lean 4 refinement proofs (instrumented decoder model refines the base decoder model; invariant 'committed runes = consumed prefix'; exact characterisation of every reported range; translation lemma for the initial offset) for the N-Triples/N-Quads decoders at document level and for the Turtle/TriG token producers, about executable models tied by T1 tables and T3 differential correspondence (ops nqo.dec, offx.tok) + independent property oracle on the implementation for every decoder with offset capture (capture on == off, ranges inside and recomputed from the text, shift by the initial offset, slice re-decodes to the same term for NT/NQ/Turtle/TriG, syntactic boundary checks for the whole-document formats, error offsets inside)")
+    # C20: base part (the former hand-written props/C20.json, kept as props/C20B.part.json) + C20T (date/time family, builder-time)
+    # + C20F (decimal/float/double, builder-xsdfloat) when present
+    c20parts = [("C20B.part", None, None), ("C20T", None, None)]
+    if os.path.exists(os.path.join(ROOT, "props", "C20F.json")) and load("C20F").get("ready"):
+        c20parts.append(("C20F", None, None))
+    assemble("C20", c20parts,
+      "proof",
+      "Machine-checked proof for whiteSpace collapse (= XSD collapse, all strings), the nine integer types and boolean (soundness, completeness on canonical forms of representable values, canonical literal that maps back, TermEquals <=> canonical form), hexBinary/base64Binary (success <=> lexical space) and soundness of decimal/double/float; string/anyURI proved up to the XML Char restriction (counterexample proved). Date/time family (dateTime, date, time, gYear, gYearMonth, gMonth, gDay, gMonthDay, dateTimeStamp): Model.GoTime is an executable model of time.Parse/Time.Format restricted to the layout elements the xsdtype package uses and of the nine Map functions; time_sound_partial proves for all 22 (type, layout) pairs that a successful Map whose parse took none of the four lax branches of time.Parse (one-digit hour, comma fraction separator, signed fraction field, zone beyond +-14:00) implies membership in the XSD lexical space; each lax branch and the fraction-dropped / year-range / 24:00:00 deviations are proved inhabited (decide witnesses = the known findings); TermEquals <=> same datatype and exactly the text AsObjectValue writes. Canonical/idempotent clause of the date/time family, float values and duration: exact T3 agreement of the model + oracle on the implementation.",
+      "Trusted: Lean kernel; axioms propext/Classical.choice/Quot.sound at most; the T2 extractor and its shape checks; the T3 harnesses c20, c20t (and c20f) and their generators; strconv float rounding/formatting and regexp as parameters tied by T3; time.Parse/Format modelled by hand (Model.GoTime) and tied by exact T3 agreement on the layouts in use and on random layouts of the same elements; Spec.XsdLexical cross-checked against the standard's regular expressions.",
+      "Lean 4 theorems about executable models of xsdtype.Map*/AsObjectValue/TermEquals (incl. a model of time.Parse/Format) parameterised by facts regenerated from the Go source (T2) + exact differential correspondence (T3) + direct property oracle on the implementation with class-keyed known findings")
